@@ -54,9 +54,21 @@ Definition add_member (n : node) (name : str) (r : role) : node :=
   let q := match assoc_get String.eqb name ms with Some (_, q) => q | None => [] end in
   n_set_members n (assoc_set String.eqb name (r, q) ms).
 
+(* a member entry without a sender (the node's own entry after it won an election: ClusterMember
+   { sender: None }) is marked by this sentinel at the head of its outbox; nothing is ever sent to it *)
+Definition nosender : str := "<no-sender>".
+Definition is_nosender (q : list str) : bool := match q with s :: _ => String.eqb s nosender | [] => false end.
+
+Definition add_member_nosender (n : node) (name : str) (r : role) : node :=
+  let ms := match r with
+            | Primary => map (fun m => (fst m, (Secondary, snd (snd m)))) (n_members n)
+            | _ => n_members n
+            end in
+  n_set_members n (assoc_set String.eqb name (r, [nosender]) ms).
+
 Definition push_member (n : node) (name : str) (m : str) : node :=
   match assoc_get String.eqb name (n_members n) with
-  | Some (r, q) => n_set_members n (assoc_set String.eqb name (r, q ++ [m]) (n_members n))
+  | Some (r, q) => if is_nosender q then n else n_set_members n (assoc_set String.eqb name (r, q ++ [m]) (n_members n))
   | None => n
   end.
 
@@ -237,7 +249,7 @@ Definition sup_one (acc : cnode * list (newlink * list str)) (msg : str) : cnode
   match splitn 2 sp msg with
   | [cmd; name] =>
       if String.eqb cmd "secoundary" then
-        if has_member n name then (mkCN n (cn_log x) (cn_keymap x) (cn_clients x) true, nls)
+        if has_member n name then acc        (* fix: a second join of a known member is ignored *)
         else
           let '(n1, ls) := announce n name in
           let n2 := add_member n1 name Secondary in
@@ -270,7 +282,7 @@ Definition sup_one (acc : cnode * list (newlink * list str)) (msg : str) : cnode
         | _ => (mkCN n (cn_log x) (cn_keymap x) (cn_clients x) true, nls)
         end
       else if String.eqb cmd "election-win" then
-        let n1 := add_member n (n_addr n) Primary in
+        let n1 := add_member_nosender n (n_addr n) Primary in
         (cn_set_node x (replicate_message n1 ("set-primary " +++ n_addr n)), nls)
       else acc
   | _ => (mkCN n (cn_log x) (cn_keymap x) (cn_clients x) true, nls)       (* command.next().unwrap() *)
@@ -288,11 +300,12 @@ Definition flush_outboxes (c : cluster) (name : str) : cluster :=
       let links' := map (fun l =>
           if l_open l && String.eqb (l_from l) name then
             match assoc_get String.eqb (l_to l) (n_members n) with
-            | Some (_, q) => mkLink (l_from l) (l_to l) (l_hs l) (l_q l ++ q) (l_server l) (l_reader l) (l_replies l) (l_open l) (l_sent l) (l_back l)
+            | Some (_, q) => if is_nosender q then l else
+                             mkLink (l_from l) (l_to l) (l_hs l) (l_q l ++ q) (l_server l) (l_reader l) (l_replies l) (l_open l) (l_sent l) (l_back l)
             | None => l
             end
           else l) (c_links c) in
-      let n' := n_set_members n (map (fun m => (fst m, (fst (snd m), []))) (n_members n)) in
+      let n' := n_set_members n (map (fun m => (fst m, (fst (snd m), if is_nosender (snd (snd m)) then [nosender] else []))) (n_members n)) in
       mkCl (assoc_set String.eqb name (cn_set_node x n') (c_nodes c)) links' (c_cross c)
   end.
 
